@@ -1582,7 +1582,7 @@ namespace Dune {
       auto giter = glist_.begin();
       auto index = indexSet_->begin();
 
-      for(auto iter=rList_->begin(); iter != end_; ++iter) {
+      for(auto iter=rList_->begin(); iter != end_; ++iter, ++giter) {
         while(index->global()<*giter) {
           ++index;
 #ifdef DUNE_ISTL_WITH_CHECKING
